@@ -22,15 +22,17 @@ Proof.
 Qed.
 
 (* ---------------------------------------------------------------- a laid-out row is plain text *)
+Definition sform_plain (f : sform) : bool :=
+  match f with FBraced lead => blank lead | FDouble w1 w2 w3 => blank w1 && blank w2 && blank w3 | _ => true end.
 Definition lcell_plain (c : lcell) : bool :=
   match c with
-  | LSc v _ => sval_str_ok v
+  | LSc v f => sval_str_ok v && sform_plain f
   | LAr lead es => blank lead && forallb (fun x : sval * bool * bytes => sval_str_ok (fst (fst x)) && blank (snd x)) es
   end.
 Definition cells_plain (cells : list (bytes * lcell)) : bool := forallb (fun gc => blank (fst gc) && lcell_plain (snd gc)) cells.
 (* the line must not end in a backslash: a bare scalar in the last position *)
 Definition lrow_end_ok (cells : list (bytes * lcell)) : bool :=
-  match rev cells with (_, LSc v false) :: _ => negb (ends_bsl (show_sval v)) | _ => true end.
+  match rev cells with (_, LSc v FBare) :: _ => negb (ends_bsl (show_sval v)) | _ => true end.
 
 Lemma pform_plain q s : forallb printable s = true -> no_td s = true ->
   forallb printable (pform q s) = true /\ (forall c r, sep_ok c = true -> no_td r = true -> no_td (pform q s ++ c :: r) = true).
@@ -39,6 +41,25 @@ Proof.
   - split; [cbn [forallb]; rewrite forallb_app, Hp; reflexivity|]. intros c r Hc Hr. cbn [app].
     apply no_td_cons; [reflexivity|]. rewrite <- app_assoc. cbn [app]. apply no_td_sep; auto. now apply no_td_cons.
   - split; auto. intros c r Hc Hr. now apply no_td_sep.
+Qed.
+
+Lemma stext_plain f s : forallb printable s = true -> no_td s = true -> sform_ok f s = true -> sform_plain f = true ->
+  forallb printable (stext f s) = true /\ (forall c r, sep_ok c = true -> no_td r = true -> no_td (stext f s ++ c :: r) = true).
+Proof.
+  intros Hp Ht Hf Hb. destruct f as [| |lead|w1 w2 w3]; cbn [stext sform_plain] in *.
+  - apply (pform_plain false); auto.
+  - apply (pform_plain true); auto.
+  - split.
+    + cbn [forallb]. rewrite !forallb_app, (blank_printable _ Hb), Hp. reflexivity.
+    + intros c r Hc Hr. cbn [app]. apply no_td_cons; [reflexivity|]. rewrite <- !app_assoc. apply blank_no_td; auto.
+      cbn [app]. apply no_td_sep; auto. now apply no_td_cons.
+  - apply andb_true_iff in Hb as [Hb H3]. apply andb_true_iff in Hb as [H1 H2]. split.
+    + change (LBRACE :: w1 ++ LBRACE :: w2 ++ RBRACE :: w3 ++ [RBRACE]) with ([LBRACE] ++ w1 ++ [LBRACE] ++ w2 ++ [RBRACE] ++ w3 ++ [RBRACE]).
+      rewrite !forallb_app, (blank_printable _ H1), (blank_printable _ H2), (blank_printable _ H3). reflexivity.
+    + intros c r Hc Hr. cbn [app]. apply no_td_cons; [reflexivity|]. rewrite <- !app_assoc. apply blank_no_td; auto.
+      cbn [app]. apply no_td_cons; [reflexivity|]. rewrite <- !app_assoc. apply blank_no_td; auto.
+      cbn [app]. apply no_td_cons; [reflexivity|]. rewrite <- !app_assoc. apply blank_no_td; auto.
+      cbn [app]. apply no_td_cons; [reflexivity|]. now apply no_td_cons.
 Qed.
 
 Lemma blank_sep g r : blank g = true -> g <> [] -> no_td r = true -> exists c t, g ++ r = c :: t /\ sep_ok c = true /\ no_td t = true.
@@ -72,8 +93,9 @@ Qed.
 Lemma rcell_plain c : lcell_ok c = true -> lcell_plain c = true ->
   forallb printable (rcell c) = true /\ (forall c0 r, sep_ok c0 = true -> no_td r = true -> no_td (rcell c ++ c0 :: r) = true).
 Proof.
-  destruct c as [v q|lead es]; cbn [lcell_ok lcell_plain rcell]; intros Hok Hp.
-  - destruct (show_sval_plain _ Hp) as [P1 T1]. now apply pform_plain.
+  destruct c as [v f|lead es]; cbn [lcell_ok lcell_plain rcell]; intros Hok Hp.
+  - apply andb_true_iff in Hok as [_ Hf]. apply andb_true_iff in Hp as [Hv Hb].
+    destruct (show_sval_plain _ Hv) as [P1 T1]. now apply stext_plain.
   - apply andb_true_iff in Hok as [Hok _]. apply andb_true_iff in Hok as [_ He]. apply andb_true_iff in Hp as [Hl Hes].
     destruct (body_plain es He Hes) as [BP BT]. split.
     + cbn [forallb]. rewrite !forallb_app, (blank_printable _ Hl), BP. reflexivity.
@@ -122,9 +144,15 @@ Proof.
   destruct (cells_ok_cons _ _ _ Hok) as [_ [_ [Hc Hcs]]]. unfold rtext in *. cbn [map concat fst snd].
   destruct cells as [|gc cells'].
   - cbn [map concat]. rewrite app_nil_r. destruct (rcell_head c Hc) as [_ Hrn]. apply good_end_app; auto.
-    cbn [rev app] in He. destruct c as [v q|lead es]; cbn [rcell lcell_ok] in *.
-    + apply andb_true_iff in Hc as [Ht Ha]. apply good_end_pform; auto; [now apply show_sval_tok_ok|].
-      intros ->. now apply negb_true_iff.
+    cbn [rev app] in He. destruct c as [v f|lead es]; cbn [rcell lcell_ok] in *.
+    + apply andb_true_iff in Hc as [Ht Ha]. destruct f as [| |ld|w1 w2 w3]; cbn [stext].
+      * apply (good_end_pform false (show_sval v)); [now apply show_sval_tok_ok|unfold adm; cbn [sform_ok orb] in *; exact Ha|].
+        intros _. now apply negb_true_iff.
+      * apply (good_end_pform true (show_sval v)); [now apply show_sval_tok_ok|reflexivity|discriminate].
+      * unfold good_end. rewrite app_comm_cons, app_assoc, rev_app_distr. split; reflexivity.
+      * unfold good_end.
+        change (LBRACE :: w1 ++ LBRACE :: w2 ++ RBRACE :: w3 ++ [RBRACE]) with ((LBRACE :: w1) ++ (LBRACE :: w2) ++ (RBRACE :: w3) ++ [RBRACE]).
+        rewrite !app_assoc, rev_app_distr. split; reflexivity.
     + unfold good_end. rewrite app_comm_cons, app_assoc, rev_app_distr. split; reflexivity.
   - destruct (rtext_last (gc :: cells') Hcs) as [_ Nn]; [discriminate|]. apply good_end_app; [exact Nn|].
     apply IH; auto; [discriminate|].
